@@ -316,7 +316,7 @@ class TexNode(object):
         ' Nested\n    '
         """
         for descendant in self.contents:
-            if isinstance(descendant, (TexText, Token)):
+            if isinstance(descendant, str):  # TexText, Token or plain str
                 yield descendant
             elif hasattr(descendant, 'text'):
                 yield from descendant.text
@@ -813,7 +813,8 @@ class TexExpr(object):
         TexExpr('textbf', ['hello', 'world'])
         """
         self._assert_supports_contents()
-        self._contents.extend(exprs)
+        self._contents.extend(
+            e.expr if isinstance(e, TexNode) else e for e in exprs)
 
     def insert(self, i, *exprs):
         """Insert content at specified position into expression.
@@ -833,6 +834,8 @@ class TexExpr(object):
         """
         self._assert_supports_contents()
         for j, expr in enumerate(exprs):
+            if isinstance(expr, TexNode):
+                expr = expr.expr
             if isinstance(expr, TexExpr):
                 expr.parent = self
             self._contents.insert(i + j, expr)
